@@ -23,14 +23,15 @@ COMPONENTS = {
 }
 
 PROPS = {
-    "C15": dict(engine="store", gen="gen_c15", nops=(3, 10), runs={"quick": 640, "thorough": 12000},
+    "C15": dict(engine="store", gen="gen_c15", nops=(3, 10), runs={"quick": 640, "thorough": 9000},
                 level="exploration", faults=True, batch=10),
     "C01": dict(engine="store", gen="gen_c01", nops=(2, 7), runs={"quick": 800, "thorough": 16000},
                 level="exploration", faults=True, batch=10),
-    "C11": dict(engine="store", gen="gen_c11", nops=(2, 4), runs={"quick": 256, "thorough": 5000},
+    "C11": dict(engine="store", gen="gen_c11", nops=(2, 4), runs={"quick": 256, "thorough": 4000},
                 level="exploration", batch=4, timeout=600, continue_after_violation=True),
-    "C13": dict(engine="store", special="c13", nops=(1, 1), runs={"quick": 64, "thorough": 1600},
-                level="fault_enumeration", batch=2, timeout=900),
+    "C13": dict(engine="store", special="c13", nops=(1, 1), runs={"quick": 64, "thorough": 80},
+                level="fault_enumeration", batch=1, timeout=3000, max_placements={"quick": 140, "thorough": 1000},
+                wall_cap={"quick": 1800, "thorough": 4 * 3600}),
     "C02": dict(engine="store", gen="gen_c02", nops=(3, 9), runs={"quick": 400, "thorough": 8000},
                 level="exploration", faults=True, batch=8),
     "C06": dict(engine="store", gen="gen_c06", nops=(2, 6), runs={"quick": 480, "thorough": 9000},
@@ -39,11 +40,11 @@ PROPS = {
                 level="exploration", batch=8),
     "C08": dict(engine="store", gen="gen_c08", nops=(3, 8), runs={"quick": 400, "thorough": 8000},
                 level="exploration", batch=6),
-    "C09": dict(engine="store", gen="gen_c09", nops=(4, 4), runs={"quick": 320, "thorough": 6000},
+    "C09": dict(engine="store", gen="gen_c09", nops=(4, 4), runs={"quick": 320, "thorough": 12000},
                 level="exploration", batch=6),
-    "C17": dict(engine="store", gen="gen_c17", nops=(2, 6), runs={"quick": 480, "thorough": 9000},
+    "C17": dict(engine="store", gen="gen_c17", nops=(2, 6), runs={"quick": 480, "thorough": 7000},
                 level="exploration", faults=True, batch=8),
-    "C18": dict(engine="store", gen="gen_c18", nops=(4, 12), runs={"quick": 480, "thorough": 9000},
+    "C18": dict(engine="store", gen="gen_c18", nops=(4, 12), runs={"quick": 480, "thorough": 8000},
                 level="exploration", batch=8, continue_after_violation=True),
 }
 
